@@ -18,7 +18,7 @@ from simkit.simtime import CLOCK, EPOCH
 
 PROP = "C05"
 LEVEL = "exploration"
-BUDGET_S = {"quick": 420, "thorough": 3 * 3600}
+BUDGET_S = {"quick": 420, "thorough": 1500}
 CHUNK = 10
 RULE = (
     "each run = one history on one SecureBinary31 object: key set (P-256/P-384, 1..4 roots, with/without ISK incl. mixed "
